@@ -40,9 +40,6 @@ func TestC06(t *testing.T) {
 		cfg := storeh.Config{Batch: cc.Batch, Cache: 4, ICache: 4, U: 16, NH: 0, ProbeEvery: false, Ranges: 0, Crash: -1}
 		run(cfg, len(cc.Ops), storeh.Scripted(cc.Ops), "corpus/"+cc.Name)
 	}
-	// F11 witness (open known finding): crash inside a head-side DeleteRange
-	run(storeh.Config{Batch: 4, Cache: 4, ICache: 4, U: 16, Crash: -1},
-		2, storeh.Scripted([]storeh.Op{storeh.A(1, 2, 3, 4, 5, 6, 7, 8, 9, 10), storeh.D(5, 11)}), "corpus/F11-head-delete-crash")
 	// clean Stop racing a Sync while a batch is in flight (the loop's choice between the sync request and
 	// the queued stop signal is random: several rounds)
 	for i := 0; i < 8; i++ {
